@@ -7,6 +7,9 @@
 //	                   all 7 file types x all 4096 permission values;
 //	(b) runLocalQids — localfs's (dev, ino) -> qid.path mapping, over all
 //	                   pairs of a boundary alphabet (~4.5 M pairs);
+//	(d) runHistories — QIDs observed through Walk/GetAttr/Readdir of real
+//	                   files along every short history of unlinks, creates
+//	                   and listings (histories.go);
 //	(c) schedule scenarios (concurrent lookups) — NOT in this file; they are
 //	    appended to ExtraParts by another file of this package.
 //
@@ -52,6 +55,7 @@ func wants(ctx *fw.Ctx, scenario string) bool {
 
 func run(ctx *fw.Ctx, rep *fw.Report) {
 	runModes(ctx, rep)
+	runHistories(ctx, rep)
 	runLocalQids(ctx, rep)
 	for _, part := range ExtraParts {
 		part(ctx, rep)
